@@ -341,6 +341,13 @@ def build_evidence(pid, mod, ctx: Ctx, tier, seed, wall, new_viol, known_hit,
 # --------------------------------------------------------------- self-test
 def _apply_variant(root: str, v: dict) -> Optional[str]:
     """returns None if applied, else reason for skipping"""
+    if v.get("patch"):
+        pr = subprocess.run(["patch", "-p1", "-s", "--no-backup-if-mismatch",
+                             "-i", v["patch"]], cwd=root,
+                            capture_output=True, text=True)
+        if pr.returncode != 0:
+            return "patch does not apply to this tree"
+        return None
     edits = v.get("edits") or [(v["file"], v["find"], v["replace"])]
     for (rel, find, repl) in edits:
         p = os.path.join(root, rel)
@@ -369,8 +376,48 @@ def _run_json(pid: str, repo: str) -> Optional[dict]:
         return {"error": (pr.stdout + pr.stderr)[-500:]}
 
 
+def corpus_variants(pid: str, ctx: Ctx) -> list:
+    """patch-based self-validation variants from the two committed corpora:
+    every seeded change written for this property must make the check report
+    a new violation (or, for the listed exceptions, at least refuse to
+    decide); every behaviour-preserving refactoring that touches a file this
+    check analysed must leave it silent. Patches that no longer apply to the
+    tree under analysis are skipped."""
+    out = []
+    sdir = os.path.join(VERIF, "seeded")
+    if os.path.isdir(sdir):
+        for name in sorted(os.listdir(sdir)):
+            pf = os.path.join(sdir, name, "patch.diff")
+            if name.startswith(pid) and os.path.isfile(pf):
+                out.append(dict(name=f"seeded/{name}", patch=pf,
+                                expect="fire", rule=pid,
+                                allow_error=name in UNDECIDABLE_SEEDS))
+    files = set()
+    for q in ctx.analysed.get("functions", []):
+        f = ctx.prog.functions.get(q)
+        if f is not None:
+            files.add(f.module.relpath if hasattr(f.module, "relpath")
+                      else f.file)
+    rdir = os.path.join(VERIF, "refactors")
+    if os.path.isdir(rdir):
+        for name in sorted(os.listdir(rdir)):
+            pf = os.path.join(rdir, name, "patch.diff")
+            if not os.path.isfile(pf):
+                continue
+            touched = {l.split(" b/")[1].strip() for l in open(pf)
+                       if l.startswith("diff --git")}
+            if files and not (touched & files):
+                continue
+            out.append(dict(name=f"refactors/{name}", patch=pf,
+                            expect="silent"))
+    return out
+
+
+UNDECIDABLE_SEEDS = ("C14d", "C20g")
+
+
 def run_selftest(pid: str, mod, ctx: Ctx, repo: str) -> dict:
-    variants = list(mod.VARIANTS)
+    variants = list(mod.VARIANTS) + corpus_variants(pid, ctx)
     base_keys = {o.key for o in ctx.obligations if not o.ok}
     tmp_root = tempfile.mkdtemp(prefix=f"evo_selftest_{pid}_")
     results = []
@@ -390,8 +437,16 @@ def run_selftest(pid: str, mod, ctx: Ctx, repo: str) -> dict:
                 return {"name": v["name"], "outcome": "skipped", "why": why}
             try:
                 import ast as _ast
-                for (rel, _, _) in (v.get("edits") or
-                                    [(v["file"], None, None)]):
+                if v.get("patch"):
+                    rels = [l.split(" b/")[1].strip()
+                            for l in open(v["patch"])
+                            if l.startswith("diff --git")]
+                    rels = [(x, None, None) for x in rels
+                            if x.endswith(".py") and
+                            os.path.isfile(os.path.join(d, x))]
+                else:
+                    rels = (v.get("edits") or [(v["file"], None, None)])
+                for (rel, _, _) in rels:
                     _ast.parse(open(os.path.join(d, rel)).read())
             except SyntaxError as e:
                 return {"name": v["name"], "outcome": "deviation",
@@ -412,6 +467,9 @@ def run_selftest(pid: str, mod, ctx: Ctx, repo: str) -> dict:
                 if hit:
                     return {"name": v["name"], "outcome": "ok",
                             "fired": sorted({x["rule"] for x in hit})}
+                if v.get("allow_error") and r.get("undecided"):
+                    return {"name": v["name"], "outcome": "ok",
+                            "detail": "undecidable (accepted)"}
                 return {"name": v["name"], "outcome": "deviation",
                         "why": f"expected a new violation of {want}, got "
                                f"{sorted({x['rule'] for x in new})}"}
